@@ -522,3 +522,40 @@ Definition wslot (a : wkind) : bool := match a with WBody | WJson | WForm => tru
 
 Definition wderived (ct : ctype) (a : wkind) : Prop :=
   match a with WBody => True | WJson => ct = CJson | WForm => ct = CForm | _ => False end.
+
+(* ---------- vocabulary of the liveness theorems ---------- *)
+
+(* [waits st t]: the unfinished task t is blocked on something that has NOT happened
+   yet.  Either it is the one registered receive() call, every delivered message
+   has been handed out and none of them ended the body (so it waits for a message
+   the server has still to deliver); or it awaits the shared future of a slot,
+   is registered as a done-callback of that future, and the slot's own task is
+   unfinished and waits in the same sense (chains: access -> json/form -> body ->
+   receive). *)
+Inductive waits (st : state) : tid -> Prop :=
+| W_recv : forall t w acc,
+    tst st t = TRecv -> rwait st = [(t, w, acc)] -> avail st = [] ->
+    has_term (map snd (log st)) = false -> waits st t
+| W_slot : forall t s,
+    tst st t = TAwait s -> In t (swait st s) -> waits st (TS s) -> waits st t.
+
+(* the task has a segment it can run now: it was scheduled and has not begun, its
+   receive() was answered, or the future it awaits is done *)
+Definition runnable (st : state) (t : tid) : Prop :=
+  tst st t = TNew \/ (exists w acc m, tst st t = TGot w acc m) \/
+  (exists s o, tst st t = TAwait s /\ tst st (TS s) = TDone o).
+
+Definition started (st : state) (t : tid) : Prop := In t (accs st) \/ tst st t <> TAbsent.
+
+Definition is_start (e : event) : bool := match e with EStart _ => true | _ => false end.
+
+(* number of accesses the application starts in an event list *)
+Definition nstarts (evs : list event) : nat := length (filter is_start evs).
+
+(* segments that can still run once nothing more is delivered: at most two per
+   task (start / resume), for the started accesses and the three slot tasks *)
+Definition fuel_bound (naccesses : nat) : nat := 2 * (naccesses + 3).
+
+(* the loop of stream() with unbounded patience: [wloop] run with any fuel above
+   the one the model uses gives the same result, see w_completion *)
+Definition wfuel (inp : list bytes) : nat := S (total inp).
